@@ -190,7 +190,9 @@ func verifyFunction(P *Program, db *SpecDB, R *Resolver, fs *FuncSpec, fn *ssa.F
 	for _, ca := range fs.CheckAts {
 		if f.checkAtHit[ca] == 0 {
 			what := "channel send"
-			if !ca.Send {
+			if ca.MapUpdate != 0 {
+				what = "such map store"
+			} else if !ca.Send {
 				what = "call of " + ca.Callee
 			}
 			props := ca.Props
